@@ -187,13 +187,28 @@ pub fn run_case_on<F: Flavour>(prop: &str, nodes: &[F::Node], c: &SCase, st: &mu
             });
         }
     }
-    if prop == "C08" && counting && c.cell.transposed() && F::DIRECTED {
-        // metamorphic cross-check (evidence only): identical observable result on the reversed graph
+    if prop == "C08" && c.cell.transposed() && F::DIRECTED {
+        // metamorphic: the identical observable result on the physically reversed graph (same insertion order, so the
+        // reversed graph's out-lists are this graph's in-lists and every deterministic choice is the same)
         let (mg, mcell, mmeth) = mirror(c);
         let mnodes = build::<F>(&mg);
         let mout = exec::<F>(&mnodes, c.root, &mcell, &mmeth, budget_for(&mg));
-        let same = mout.found == out.found && mout.path == out.path && mout.nodes == out.nodes && mout.edges == out.edges && mout.calls == out.calls && mout.panic.is_some() == out.panic.is_some();
-        st.class(if same { "c08.metamorphic.identical-on-reversed-graph" } else { "c08.metamorphic.differs-on-reversed-graph" });
+        let same = mout.found == out.found && mout.path == out.path && mout.nodes == out.nodes && mout.edges == out.edges && mout.calls == out.calls && mout.panic.is_some() == out.panic.is_some() && mout.final_prio == out.final_prio && mout.over_budget == out.over_budget;
+        if counting {
+            st.class(if same { "c08.metamorphic.identical-on-reversed-graph" } else { "c08.metamorphic.differs-on-reversed-graph" });
+        }
+        if !same && ok {
+            ok = false;
+            let clause = "transpose.differs-from-the-same-operation-on-the-reversed-graph";
+            st.report(Finding {
+                property: prop.into(),
+                flavour: F::NAME.into(),
+                clause: clause.into(),
+                signature: signature(F::NAME, &c.cell, &c.meth, clause),
+                case: json!({"kind": "search", "flavour": F::NAME, "g": c.g, "root": c.root, "cell": c.cell, "meth": c.meth, "observed": {"found": out.found, "path": out.path, "nodes": out.nodes, "edges": out.edges, "calls": out.calls, "final_values": out.final_prio}, "on_reversed_graph": {"found": mout.found, "path": mout.path, "nodes": mout.nodes, "edges": mout.edges, "calls": mout.calls, "final_values": mout.final_prio}}),
+                detail: "the transposed operation and the plain operation on the edge-reversed graph (same insertion order) give different observable results".into(),
+            });
+        }
     }
     ok
 }
@@ -207,7 +222,12 @@ pub fn mirror(c: &SCase) -> (GCase, Cell, MethSpec) {
         Cell::Search(s) => Cell::Search(SearchCfg { transposed: false, ..*s }),
         Cell::Order(o) => Cell::Order(OrderCfg { transposed: false, ..*o }),
     };
-    (g, cell, c.meth.clone())
+    // the nested-search predicate follows plain edges, which are reversed in the mirrored graph: use its rejected set
+    let meth = match &c.meth {
+        MethSpec::FilterNested(_, _, rej) => MethSpec::Filter(rej.clone()),
+        m => m.clone(),
+    };
+    (g, cell, meth)
 }
 
 /// the same search object used twice with the graph's last edge connected in between
@@ -301,6 +321,14 @@ fn exhaustive_graph<F: Flavour>(prop: &str, g: &GCase, st: &mut Stats, all_subse
     for cell in cells_for(prop, F::DIRECTED) {
         let mut meths = vec![MethSpec::None, MethSpec::ForEach];
         meths.extend(filters_for(g, F::DIRECTED, cell.transposed(), all_subsets));
+        for algo in [Algo::Bfs, Algo::Dfs, Algo::PfsMin] {
+            for k in 0..g.n as Key {
+                meths.push(nested_filter(g, F::DIRECTED, cell.transposed(), algo, k));
+            }
+        }
+        if prop == "C08" {
+            meths.push(MethSpec::Relax);
+        }
         let combos = Combos {
             roots: (0..g.n as Key).collect(),
             targets: {
@@ -608,7 +636,13 @@ pub fn run_raw(prop: &str, raw: &RawG, st: &mut Stats, counting: bool) -> bool {
                 };
                 for t in targets {
                     let cell = with_target(&cell, t);
-                    for m in [MethSpec::None, MethSpec::ForEach, raw.filter(&g, <$F>::DIRECTED, cell.transposed())] {
+                    let nalgo = [Algo::Bfs, Algo::Dfs, Algo::PfsMin, Algo::PfsMax][raw.coins.first().cloned().unwrap_or(0) as usize % 4];
+                    let nk = pt::idx(raw.target ^ 0x5555, g.n) as Key;
+                    let mut ms = vec![MethSpec::None, MethSpec::ForEach, raw.filter(&g, <$F>::DIRECTED, cell.transposed()), nested_filter(&g, <$F>::DIRECTED, cell.transposed(), nalgo, nk)];
+                    if prop == "C08" {
+                        ms.push(MethSpec::Relax);
+                    }
+                    for m in ms {
                         let c = SCase { g: g.clone(), root, cell: cell.clone(), meth: m };
                         if !run_case_on::<$F>(prop, &nodes, &c, st, counting) {
                             ok = false;
@@ -900,7 +934,15 @@ pub fn run(prop: &'static str, ctx: &mut Ctx) {
                                 }
                             }
                         }
-                        for m in [MethSpec::None, MethSpec::ForEach, MethSpec::Filter(BTreeSet::new()), MethSpec::Filter(rej)] {
+                        let mut ms = vec![MethSpec::None, MethSpec::ForEach, MethSpec::Filter(BTreeSet::new()), MethSpec::Filter(rej)];
+                        if g.n <= 130 {
+                            ms.push(nested_filter(g, <$F>::DIRECTED, cell.transposed(), Algo::Dfs, target));
+                            ms.push(nested_filter(g, <$F>::DIRECTED, cell.transposed(), Algo::Bfs, (g.n / 2) as Key));
+                        }
+                        if prop == "C08" {
+                            ms.push(MethSpec::Relax);
+                        }
+                        for m in ms {
                             let c = SCase { g: g.clone(), root, cell: cell.clone(), meth: m };
                             run_case_on::<$F>(prop, &nodes, &c, &mut st, true);
                         }
